@@ -80,8 +80,10 @@ class KuramotoSivashinskyPDE(SDEBase):
     @property
     def expression(self) -> str:
         """str: the expression of the right hand side of this PDE"""
-        expr = f"c + {expr_prod(self.nu, '∇²c')}"
-        return f"-∇²({expr}) - 0.5 * |∇c|²"
+        # the operators are written one by one, exactly as `evolution_rate` applies
+        # them: grouping `c + ν ∇²c` under a single Laplacian differs from the
+        # implementation by ν times the offset of inhomogeneous boundary conditions
+        return f"{expr_prod(-self.nu, '∇²(∇²c)')} - ∇²c - 0.5 * |∇c|²"
 
     def evolution_rate(  # type: ignore
         self,
